@@ -25,7 +25,8 @@ type op struct {
 }
 
 type caseT struct {
-	Script []op `json:"script"`
+	Script []op   `json:"script"`
+	Elem   string `json:"elem,omitempty"` // element type of the typed family ("" = int)
 }
 
 var (
@@ -198,9 +199,14 @@ func main() {
 			rec.Inconclusive("cannot load replay: " + err.Error())
 			return
 		}
+		if c.Elem != "" {
+			runTypedKind(c.Elem, c.Script)
+			return
+		}
 		runScript(c.Script)
 		return
 	}
+	typedScripts()
 	depth := common.Pick(5, 7)
 	for d := 1; d <= depth; d++ {
 		enumerate(nil, nil, 100, d)
